@@ -43,3 +43,12 @@ Definition f_to_i16 (x : f32) : Z :=
       let mag := if 0 <=? e then Z.pos m * 2 ^ e else Z.pos m / 2 ^ (- e) in
       clamp (-32768) 32767 (if s then - mag else mag)
   end.
+
+(* f32::ceil and `x as usize` (truncation toward zero, saturating, NaN -> 0): used by DecodedPicture::new *)
+Definition fceil (x : f32) : f32 := Bnearbyint mode_UP x.
+Definition f_to_usize (x : f32) : Z :=
+  match x with
+  | B754_nan => 0
+  | B754_infinity s => if s then 0 else 18446744073709551615
+  | _ => clamp 0 18446744073709551615 (Btrunc x)
+  end.
